@@ -60,7 +60,8 @@ def run(ctx, spec):
         for comp in spec["components"]:
             cases = load_corpus(prop, comp["comp"]) + comp["gen"](ctx.rng, ctx.tier)
             ctx.cov["distribution"][comp.get("label", comp["comp"])] = comp.get("dist", lambda cs: {})(cases)
-            bads += C.corr_component(ctx, comp["comp"], cases, comp.get("nontrivial"), label=comp.get("label"))
+            bads += C.corr_component(ctx, comp["comp"], cases, comp.get("nontrivial"), label=comp.get("label"),
+                                     oracle=comp.get("oracle"))
     elif harness_ok:
         ctx.broken.append("model driver missing (lean build failed)")
     if harness_ok and spec.get("extra"):
@@ -91,6 +92,7 @@ def run(ctx, spec):
             if len([v for v in ctx.violations]) >= 5:
                 continue
             b = C.shrink_case(ctx, bad["component"], bad) if bad.get("shrinkable", True) and harness_ok else bad
+            b.pop("oracle", None)
             ctx.violation("oracle%d" % len(ctx.violations), {
                 "kind": "implementation fails the property oracle", "component": b["component"], "ops": b["ops"],
                 "impl": b["impl"], "model": b.get("model"), "detail": b.get("detail")},
@@ -107,8 +109,10 @@ def run(ctx, spec):
         # implementation-side oracle (bigger budget), before reporting.
         hit = None
         if harness_ok and spec.get("search"):
-            for comp, cases in spec["search"](ctx.rng, ctx.tier):
-                sb = C.corr_component(ctx, comp, cases, None, label="search:" + comp)
+            for item in spec["search"](ctx.rng, ctx.tier):
+                comp, cases = item[0], item[1]
+                sb = C.corr_component(ctx, comp, cases, None, label="search:" + comp,
+                                      oracle=item[2] if len(item) > 2 else None)
                 sb = [b for b in sb if b["kind"] == "oracle" and match_known(known, b) is None]
                 if sb:
                     hit = C.shrink_case(ctx, comp, sb[0])
